@@ -113,7 +113,62 @@ def run_prog_property(ck, pid, prop_file, kinds, n_gen_quick, n_gen_thorough, st
                            "compiler by structural equality of circuits on the programs run"])
 
 
+def bits(v, n):
+    return format(v & ((1 << n) - 1), "0%db" % n)
+
+
+# Source-level expectations written by hand from the Rust-like semantics of the SOURCE TEXT (not computed from the parsed
+# tree): they guard the parser's desugarings, which the AST-level oracles (Sem.v, TSem) cannot see.  Every program ignores
+# its input, so the expected output is one bit string.
+GOLDEN = [
+    ("golden-le-operand-once", "pub fn main(z: u8) -> (bool, u8) { let mut c = 3u8; let r = ({ c = c + 1u8; c }) <= 5u8; (r, c) }",
+     "1" + bits(4, 8), None),
+    ("golden-ge-operand-once", "pub fn main(z: u8) -> (bool, u8) { let mut c = 3u8; let r = 4u8 >= ({ c = c + 1u8; c }); (r, c) }",
+     "1" + bits(4, 8), None),
+    ("golden-le-no-double-failure", "pub fn main(z: u8) -> (bool, u8) { let mut c = 254u8; let r = ({ c = c + 1u8; c }) <= 5u8; (r, c) }",
+     "0" + bits(255, 8), None),
+    ("golden-le-ge-values", "pub fn main(z: u8) -> (bool, bool, bool, bool, bool, bool) { (3u8 <= 3u8, 3u8 <= 2u8, 2i8 >= -1i8, -5i8 >= -4i8, 255u8 >= 255u8, -128i8 <= 127i8) }",
+     "101011", None),
+    ("golden-op-assign-index-once", "pub fn main(z: u8) -> ([u8; 3], usize) { let mut a = [1u8, 2u8, 3u8]; let mut i = 0usize; a[{ i = i + 1usize; i }] += 10u8; (a, i) }",
+     bits(1, 8) + bits(12, 8) + bits(3, 8) + bits(1, 32), "op-assign-index-evaluated-twice"),
+    ("golden-op-assign-plain", "pub fn main(z: u8) -> (u8, [u8; 2]) { let mut x = 5u8; x += 3u8; x <<= 1u8; let mut a = [1u8, 2u8]; a[1usize] *= 7u8; (x, a) }",
+     bits(16, 8) + bits(1, 8) + bits(14, 8), None),
+    ("golden-short-circuit", "pub fn main(z: u8) -> (bool, u8, bool, u8) { let mut x = 1u8; let r = false && ({ x = 9u8; true }); let mut y = 1u8; let s = true || ({ y = 9u8; false }); (r, x, s, y) }",
+     "0" + bits(1, 8) + "1" + bits(1, 8), None),
+    ("golden-assign-order", "pub fn main(z: u8) -> [u8; 3] { let mut a = [1u8, 2u8, 3u8]; a[{ a[1usize] = 7u8; 0usize }] = { a[2usize] = 9u8; 5u8 }; a }",
+     bits(5, 8) + bits(7, 8) + bits(9, 8), None),
+    ("golden-loop-zero-sized", "enum U { Only }\npub fn main(z: u8) -> u8 { let u = [U::Only, U::Only, U::Only]; let mut c = 0u8; for e in u { c = c + 1u8; } c }",
+     bits(3, 8), None),
+]
+
+
+def golden_pass(ck):
+    recs = PC.run_programs(ck, [(n, s) for n, s, _, _ in GOLDEN], "c01.gold", ninputs=3)
+    bad = 0
+    for rec, (name, src, expect, known) in zip(recs, GOLDEN):
+        if rec["status"] != "compiled":
+            bad += 1
+            ck.violation("a golden source-level program is not accepted / compiled", {"program": src, "rust": rec["rust_raw"][:200]})
+            continue
+        want = '(ok "%s")' % expect
+        for cfg, results in rec["runs"].items():
+            wrong = [r for r in results if r != want]
+            if wrong:
+                bad += 1
+                ck.violation(f"the compiled circuit ({cfg}) differs from the Rust-like semantics of the source text (hand-written expectation)",
+                             {"program": src, "expected": want, "circuit_result": wrong[0], "config": cfg}, key=known)
+                break
+    ck.coverage["golden_source_level_programs"] = {"programs": len(GOLDEN), "not_as_expected": bad}
+
+
 def run(ck):
+    fin = ck.finish
+
+    def finish(**kw):
+        if ck.harness_ok and ck.model_ok:
+            golden_pass(ck)
+        return fin(**kw)
+    ck.finish = finish
     return run_prog_property(
         ck, "C01", "C01", KINDS, 240, 6000, ["mixed"],
         "compiled circuit differs from the source semantics",
